@@ -60,6 +60,8 @@ func checkC12(c *Ctx) {
 	ruleRoutingIndependentOfMirror(c, "C12.m")
 	c.rule("C12.n", "a synchronising literal refused by the server (tagged NO/BAD) does not tear the client down", 1)
 	ruleRefusalIsNotTeardown(c, "C12.n")
+	c.rule("C12.o", "a hand-over counter compared with cap(ch) is incremented before the test and the send of the same round (the reader never blocks on a full item channel)", 1)
+	ruleCountBeforeSend(c, "C12.o")
 }
 
 var mirrorTypes = map[string]bool{"SelectedMailbox": true, "SelectData": true, "UnilateralDataMailbox": true}
